@@ -3,10 +3,9 @@ import Okane.Props.C05
 /-!
 # The image property and the round trip on texts, in the vocabulary of `Props/C05.lean`
 
-`C05_image_full`, `C05_roundtrip_full`, `C05_idempotent_full` of `Props/C05.lean` are false as stated (F27 / F28, and — for the
-image statement — a payee that begins with an unclosed `(`).  Here they are proved under the decidable hypothesis
-`TextOK t` on the TEXT (`asciiSpaceOnly t ∧ parensClosed t`, `Lemmas/C05ImageBase.lean`), with nothing asked of the parsed
-entries:
+`C05_image_full`, `C05_roundtrip_full`, `C05_idempotent_full` of `Props/C05.lean` are false as stated (F27 / F28).  Here
+they are proved under the decidable hypothesis `TextOK t` on the TEXT (`asciiSpaceOnly t`, `Lemmas/C05ImageBase.lean`), with
+nothing asked of the parsed entries:
 
 * `C05_image_partial`      — `C05_image_full` restricted to `TextOK` texts, together with `plainEntry`;
 * `C05_roundtrip_partial'` — `C05_roundtrip_full w` restricted to `TextOK` texts;
@@ -35,8 +34,9 @@ theorem C05_idempotent_partial' (w : List Char → Nat) :
 /-- the known witnesses of `Props/C05.lean` are exactly outside `TextOK` -/
 example : ¬ TextOK witF28 ∧ ¬ TextOK C05.witF27 := by decide +kernel
 
-/-- the image statement of `Props/C05.lean` also fails on a pure-ASCII text: `parensClosed` is needed besides `asciiSpaceOnly` -/
-theorem not_C05_image_full_ascii :
-    asciiSpaceOnly witParen = true ∧ C05.imageOk witParen = false := by decide +kernel
+/-- regression: a payee that begins with an unclosed `(` — on which the image statement of `Props/C05.lean` failed while
+the transaction code could run across line ends (the former hypothesis `parensClosed`) — now satisfies it -/
+theorem C05_image_unclosed_paren :
+    asciiSpaceOnly witParen = true ∧ C05.imageOk witParen = true ∧ (parseEntries witParen).isOk = true := by decide +kernel
 
 end Okane.C05Image
